@@ -138,6 +138,9 @@ def entries():
 
     add("MaskedAffineAR/96-features-contracting", "transform", wide_maf, _rn(96), flags={"inv", "large", "illconditioned"})
     add("MaskedAffineAR/ctx+random", "transform", lambda: TR.MaskedAffineAutoregressiveTransform(3, 8, context_features=2, num_blocks=2, use_residual_blocks=False, random_mask=True), _rn(3), _rn(2), flags={"inv", "ctor_random"})
+    # few hidden units under random masks: degrees go missing, so the dependency chains (and with them how many inverse
+    # passes are really needed) differ from one construction seed to the next - a checkpoint carries the masks
+    add("MaskedAffineAR/8-features+random-masks+narrow", "transform", lambda: TR.MaskedAffineAutoregressiveTransform(8, 4, num_blocks=1, use_residual_blocks=False, random_mask=True, activation=torch.tanh), _rn(8), flags={"inv", "ctor_random"})
     add("MaskedAffineAR/dropout", "transform", lambda: TR.MaskedAffineAutoregressiveTransform(3, 8, num_blocks=1, dropout_probability=0.3), _rn(3), flags={"inv", "dropout"})
     add("AffineCoupling/dropout", "transform", lambda: TR.AffineCouplingTransform(mask4, resnet(dropout=0.3)), _rn(4), flags={"inv", "dropout"})
     add("MaskedAffineAR/batchnorm", "transform", lambda: TR.MaskedAffineAutoregressiveTransform(3, 8, num_blocks=1, use_batch_norm=True), _rn(3), flags={"inv", "inner_bn"})
